@@ -57,6 +57,11 @@ def text(t: Tree) -> str:
     if isinstance(t, str):
         return t
     k = t[0]
+    if k == "chain":  # ("chain", (op1, op2, ...), x, y, z, ...)
+        parts = [text(t[2])]
+        for op, x in zip(t[1], t[3:]):
+            parts += [op, text(x)]
+        return "(%s)" % " ".join(parts)
     if k == "neg":
         return "(-%s)" % text(t[1])
     if k == "abs":
@@ -375,6 +380,13 @@ def _make(param):
             _check_classes(trees, shard, nshards, res, "NEST(%d)" % arg, deadline)
             if not res["cex"]:
                 _check_moves(trees, shard, nshards, res, "NEST(%d)" % arg, deadline)
+        elif what == "CMP":
+            # comparisons incl. chains: all (x op y) and (x op1 y op2 z) over leaves {a, b, c, 1} and the six operators
+            ops = ("<", "<=", ">", ">=", "==", "!=")
+            lv = ("a", "b", "c", "1")
+            trees = [("chain", (o,), x, y) for o in ops for x in lv for y in lv]
+            trees += [("chain", (o1, o2), x, y, z) for o1 in ops for o2 in ops for x in lv for y in lv for z in lv]
+            _check_classes(trees, shard, nshards, res, "CMP", deadline)
         elif what == "BIGC":
             # constants around the places where a numeric representation could change (2**31, 2**53, 2**63, 2**64, 10**16):
             # O1 over all expressions with <= 3 nodes whose constants come from that table
@@ -440,9 +452,9 @@ BIG_CONSTS = [2 ** 31 - 1, 2 ** 31, 2 ** 53 - 1, 2 ** 53, 2 ** 53 + 1, 2 ** 63 -
 def obligations(tier: str) -> List[Ob]:
     ns = 16
     if tier == "quick":
-        plan = [("U", 5, 400.0), ("NEST", 2, 120.0), ("BIGC", 3, 120.0), ("RAND", 600, 60.0)]
+        plan = [("U", 5, 400.0), ("NEST", 2, 120.0), ("BIGC", 3, 120.0), ("CMP", 3, 120.0), ("RAND", 600, 60.0)]
     else:
-        plan = [("U", 5, 1500.0), ("NEST", 2, 300.0), ("NEST", 3, 1500.0), ("BIGC", 3, 300.0), ("RAND", 6000, 900.0)]
+        plan = [("U", 5, 1500.0), ("NEST", 2, 300.0), ("NEST", 3, 1500.0), ("BIGC", 3, 300.0), ("CMP", 3, 300.0), ("RAND", 6000, 900.0)]
     obs = []
     for what, arg, budget in plan:
         obs.append(
@@ -455,6 +467,7 @@ def obligations(tier: str) -> List[Ob]:
                 engine="B",
                 bound={"U": "all expressions with <= %d AST nodes over leaves {a,b,c,0,1,2,3}, unary -/abs, binary + - * // %% < == min max, **2/**3, if-else; O1 per signature class, O2 all single AC moves, O3 all single-point mutations (<=4 nodes)" % arg,
                        "NEST": "every %s of atoms (7 leaves + all 3-node + * - // expressions over {a,b,2} + -a + abs(b)) joined by + or *: O1 + O2" % ("pair" if arg == 2 else "triple (both bracketings, reduced atom pool)"),
+                       "CMP": "all comparisons x op y and chains x op1 y op2 z over {a, b, c, 1} and < <= > >= == != (2400 expressions): O1 per signature class",
                        "BIGC": "all expressions with <= 3 AST nodes over {a, b} and 11 integer constants around 2**31, 2**53, 2**63, 2**64, 10**16: O1 per signature class",
                        "RAND": "%d VERIF_SEED-seeded expressions of 6..11 nodes: O2 moves + up to 12 mutations each (a draw, not a bound)" % arg}[what],
                 targets=["semantiva/metadata/semantic_id.py:normalize_expression_sig_v1", "semantiva/metadata/semantic_id.py:_dump_ast_commutative"],
